@@ -401,6 +401,12 @@ def search_operator(chk, r, n, max_pto):
     for kind, mode in (("F2", 3), ("FL", 1)):
         for degree, is_log in ((3, True), (2, True), (3, False)):
             plans.append(dict(kind=kind, mode=mode, sc=SCENARIOS[0], x=0.5, Q2=4.0, MP=0.938, grid=seq_grid, degree=degree, is_log=is_log, pto=1 if kind == "FL" else 0, tag="sequence"))
+    # deterministic corners of the node loop: a grid node between xi and x (heavy target, low Q2, x just
+    # above a node), and xi inside the first grid interval (the lowest block of basis functions)
+    for kind, mode, pto in (("F2", 1, 0), ("F3", 3, 0), ("FL", 1, 1)):
+        for degree in (3, 2):
+            plans.append(dict(kind=kind, mode=mode, sc=SCENARIOS[0], x=float(seq_grid[6] * 1.0005), Q2=2.0, MP=2.0, grid=seq_grid, degree=degree, is_log=True, pto=pto, tag="node-between-xi-and-x"))
+        plans.append(dict(kind=kind, mode=mode, sc=SCENARIOS[0], x=float(seq_grid[0] * 1.05), Q2=50.0, MP=0.938, grid=seq_grid, degree=3, is_log=True, pto=pto, tag="first-interval"))
     for i in range(n):
         kind = KINDS[i % 4]
         mode = [3, 1, 2][(i // 4) % 3]
